@@ -55,3 +55,12 @@ Theorem C07_one_session_per_sender :
   Gen.state_getsession_locked = true /\ Gen.session_signing_locked = true /\ Gen.timeseq_check_locked = true.
 Proof. repeat split; reflexivity. Qed.
 Print Assumptions C07_one_session_per_sender.
+
+(* ---------- lock discipline of the operations the model treats as atomic (go/ast obligation on the source under test) ---------- *)
+(* The ping handlers' pending-state maps (hello, ping-pong, error cooldowns), the connection-state
+   table and the ping-handler registry are read and written under their mutex for the whole
+   operation (16 methods of package router), and so are the session operations (21 methods of
+   package state): a handler's effect on the projected state is one step, as handle_ping has it. *)
+Theorem C07_lock_discipline : Gen.lock_discipline_router = true /\ Gen.lock_discipline_state = true.
+Proof. repeat split; reflexivity. Qed.
+Print Assumptions C07_lock_discipline.
